@@ -91,6 +91,30 @@ def _image_ok(img, w, pre, new, deleted):
     return inv_ok(img, w, objs_map(w, pre), exact=False) and visible_complete(img, w, objs_map(w, new + deleted))
 
 
+def _fresh_reads_ok(w, img, op, pre, new):
+    """C05, second sentence: a NEW handle on the image never returns wrong bytes -- right bytes for everything stored
+    before; for objects being added right bytes or NotExistent; after an interrupted repack a loud failure is allowed"""
+    h = w.mount_image(img)
+    try:
+        for i, size in pre + new:
+            key = w.key(i, size)
+            try:
+                got = h.get_object_content(key)
+            except w.C.NotExistent:
+                if (i, size) in pre and op != 'repack':
+                    return False
+                continue
+            except (AssertionError, ValueError, OSError):
+                if op != 'repack':
+                    return False
+                continue
+            if not (got == w.content(i, size)):
+                return False
+        return True
+    finally:
+        h.close()
+
+
 def _crash(op, durable, h0, sp, s0, s1, target, crash_at):
     w = make_world(target)
     try:
@@ -102,7 +126,9 @@ def _crash(op, durable, h0, sp, s0, s1, target, crash_at):
             pass
         if not w.box:
             return True  # the operation ended before the crash point
-        return _image_ok(w.box[0], w, pre, new, deleted)
+        if not _image_ok(w.box[0], w, pre, new, deleted):
+            return False
+        return durable or _fresh_reads_ok(w, w.box[0], op, pre, new)
     finally:
         if getattr(w, 'src', None) is not None:
             w.src.cleanup()
